@@ -241,7 +241,32 @@ impl MetaMonitor {
         (f, path, desc)
     }
 
+    fn c07_shipped(&self, name: &str, out: &mut CaseOut) {
+        let (_v, view, bytes) = match shipped_facts(name) {
+            Ok(x) => x,
+            Err(e) => {
+                out.inconclusive = Some(format!("shipped file {name}: {e}"));
+                return;
+            }
+        };
+        out.bucket(&format!("shipped/{name}"));
+        out.sig = crate::rng::hash_bytes(name.as_bytes());
+        out.nontrivial = true;
+        out.case = Json::obj().set("shipped_file", Json::s(name)).set("facts", view.summary());
+        match drive::from_bytes(&bytes) {
+            Ok(ont) => {
+                let ids: Vec<u32> = view.terms.iter().map(|t| t.id).collect();
+                self.roundtrip(&ont, &ids, "shipped", out);
+            }
+            Err(_) => out.bucket("source_construction_failed"),
+        }
+    }
+
     fn c07_case(&self, label: &str, rng: &mut Rng, tier: Tier, out: &mut CaseOut) {
+        if let Some(i) = label.strip_prefix("real:") {
+            self.c07_shipped(SHIPPED_FILES[i.parse::<usize>().unwrap() % SHIPPED_FILES.len()], out);
+            return;
+        }
         let (facts, path, desc) = if let Some(i) = label.strip_prefix("long:") {
             self.c07_catalogue(i.parse().unwrap(), rng)
         } else {
@@ -488,6 +513,9 @@ impl Monitor for MetaMonitor {
                 for i in 0..27 {
                     v.push(format!("long:{i}"));
                 }
+                for i in 0..SHIPPED_FILES.len() {
+                    v.push(format!("real:{i}"));
+                }
                 v.extend(catalogue_labels());
                 for i in 0..tier.pick(3000, 80_000) {
                     v.push(format!("rnd:{i}"));
@@ -526,6 +554,7 @@ impl Monitor for MetaMonitor {
                 "source_path/builder_defaults",
                 "source_path/bytes_v3",
                 "source_path/jax",
+                "shipped/ontology.hpo",
             ],
             "C09" => vec![
                 "loader/standard",
